@@ -763,10 +763,14 @@ class _Unroll(ast.NodeTransformer):
   MAX_ELEMS = 4
   MAX_BODY = 30
 
-  def __init__(self, known_iters=()):
+  def __init__(self, known_iters=(), known_targets=()):
     # loops the reference function has itself are part of its shape: only
     # loops it does not have are unrolled (inventory-relative, see inline.py)
     self.known_iters = set(known_iters)
+    # a loop with the target of a reference loop over a display IS that
+    # reference loop, possibly with a changed display (an element dropped or
+    # added is a change of behaviour the rules must see as a loop)
+    self.known_targets = set(known_targets)
 
   def _literal(self, e):
     """a literal, a plain name / dotted attribute (read once when the display
@@ -803,6 +807,8 @@ class _Unroll(ast.NodeTransformer):
     self.generic_visit(n)
     it = n.iter
     if ast.unparse(it) in self.known_iters:
+      return n
+    if ast.unparse(n.target) in self.known_targets:
       return n
     if n.orelse or not isinstance(it, (ast.Tuple, ast.List)) or not (
         1 < len(it.elts) <= self.MAX_ELEMS) or not all(
